@@ -1,9 +1,191 @@
-import LLTD.Model.Event
-import LLTD.Spec.Block
+/-
+  C09 — A Reset returns the responder to fresh-start behaviour.
+  Bisimulation up to `norm`: while no mapper is known, the stored mapper addresses are dead (they are only read
+  after being overwritten), so a state that differs from the fresh one only in those two fields reacts identically.
+-/
+import LLTD.Lemmas.Safe
 
 namespace LLTD.C09
-open LLTD LLTD.Spec
+open LLTD
 
-theorem placeholder_layout : X.sizeofDemux = 32 := by decide
+/-- forget the mapper addresses when no mapper is known -/
+def norm (st : St) : St := if st.known then st else { st with mapperReal := zeroMac, mapperApparent := zeroMac }
+
+/-- same reaction: port calls, allocator / ledger effects, faults; next states equal up to dead fields -/
+def SameReaction (a b : Out) : Prop := a.fx = b.fx ∧ a.w = b.w ∧ a.fault = b.fault ∧ norm a.st = norm b.st
+
+theorem same_refl (a : Out) : SameReaction a a := ⟨rfl, rfl, rfl, rfl⟩
+
+theorem norm_idem (st : St) : norm (norm st) = norm st := by
+  unfold norm; by_cases h : st.known = true <;> simp [h]
+
+theorem setActive_norm (st : St) (r e : Mac) (hk : st.known = false) :
+    setActiveMapper (norm st) r e = setActiveMapper st r e := by
+  unfold setActiveMapper norm; simp [hk]
+
+theorem matches_norm (st : St) (r : Mac) (hk : st.known = false) : mapperMatches (norm st) r = mapperMatches st r := by
+  unfold mapperMatches norm; simp [hk]
+
+theorem norm_eq_of (a b : St) (h1 : a.sees = b.sees) (h2 : a.count = b.count) (h3 : a.known = b.known) (h4 : a.seq = b.seq)
+    (h5 : a.genTopo = b.genTopo) (h6 : a.genQuick = b.genQuick) (h7 : a.icon = b.icon)
+    (h8 : a.known = true → a.mapperReal = b.mapperReal ∧ a.mapperApparent = b.mapperApparent) : norm a = norm b := by
+  cases a; cases b
+  simp only [] at *
+  subst h1 h2 h3 h4 h5 h6 h7
+  unfold norm
+  simp only []
+  split
+  · next hk => obtain ⟨e1, e2⟩ := h8 hk; subst e1 e2; rfl
+  · rfl
+
+theorem norm_fields (st : St) (hk : st.known = false) :
+    (norm st).sees = st.sees ∧ (norm st).count = st.count ∧ (norm st).known = false ∧ (norm st).seq = st.seq ∧
+    (norm st).genTopo = st.genTopo ∧ (norm st).genQuick = st.genQuick ∧ (norm st).icon = st.icon := by
+  unfold norm; simp [hk]
+
+theorem seq_norm (st : St) (v : Nat) (r e : Mac) (hk : st.known = false) :
+    setActiveMapper { norm st with seq := v } r e = setActiveMapper { st with seq := v } r e := by
+  unfold setActiveMapper norm; simp [hk]
+
+theorem emit_norm (c : Cfg) (w : World) (st : St) (img : List Nat) (hk : st.known = false) :
+    SameReaction (parseEmit c w st img) (parseEmit c w (norm st) img) := by
+  unfold parseEmit
+  simp only [seq_norm st _ _ _ hk]
+  by_cases hg : c.failMtu = true ∨ c.mtu < X.sizeofDemux + X.sizeofEmitHdr
+  · simp only [if_pos hg]; exact ⟨rfl, rfl, rfl, (norm_idem st).symm⟩
+  · simp only [if_neg hg]; exact same_refl _
+
+theorem probe_norm (c : Cfg) (w : World) (st : St) (img : List Nat) (hk : st.known = false) :
+    SameReaction (parseProbe c w st img) (parseProbe c w (norm st) img) := by
+  obtain ⟨f1, f2, f3, f4, f5, f6, f7⟩ := norm_fields st hk
+  unfold parseProbe
+  simp only [f1, f2]
+  by_cases h1 : (fRealDst img != c.ourMac) = true
+  · simp only [h1, if_true]; exact ⟨rfl, rfl, rfl, (norm_idem st).symm⟩
+  · simp only [h1, if_false]
+    by_cases h2 : seesFull st.count = true
+    · simp only [h2, if_true]; exact ⟨rfl, rfl, rfl, (norm_idem st).symm⟩
+    · simp only [h2, if_false]
+      by_cases h3 : (w.malloc X.nodeBytes).2 = true
+      · simp only [h3, Bool.not_true, Bool.false_eq_true, if_false]
+        split
+        · exact ⟨rfl, rfl, rfl, (norm_idem st).symm⟩
+        · refine ⟨rfl, rfl, rfl, ?_⟩
+          apply norm_eq_of <;> simp [f3, f4, f5, f6, f7, hk]
+      · simp only [Bool.not_eq_true] at h3
+        simp only [h3, Bool.not_false, if_true]; exact ⟨rfl, rfl, rfl, (norm_idem st).symm⟩
+
+theorem query_norm (c : Cfg) (w : World) (st : St) (img : List Nat) (hk : st.known = false) :
+    parseQuery c w (norm st) img = parseQuery c w st img := by
+  obtain ⟨f1, f2, f3, f4, f5, f6, f7⟩ := norm_fields st hk
+  have e : ({ norm st with seq := fSeq img, mapperReal := fRealSrc img, mapperApparent := fEthSrc img, known := true } : St) =
+      { st with seq := fSeq img, mapperReal := fRealSrc img, mapperApparent := fEthSrc img, known := true } := by
+    unfold norm; simp [hk]
+  unfold parseQuery
+  simp only [f1, f2, f5, f6, f7]
+
+theorem qltlv_norm (c : Cfg) (g : Glob) (w : World) (st : St) (img : List Nat) (hk : st.known = false) :
+    SameReaction (parseQueryLargeTlv c g w st img) (parseQueryLargeTlv c g w (norm st) img) := by
+  unfold parseQueryLargeTlv
+  by_cases hs0 : fSeq img = 0
+  · simp only [hs0, if_true]; exact ⟨rfl, rfl, rfl, (norm_idem st).symm⟩
+  · simp only [hs0, if_false, seq_norm st _ _ _ hk]; exact same_refl _
+
+/-- THE DEAD-FIELD THEOREM: a state and its normal form react identically to every frame -/
+theorem dead_fields (c : Cfg) (g : Glob) (w : World) (st : St) (img : List Nat) :
+    SameReaction (parseFrameSt c g w st img) (parseFrameSt c g w (norm st) img) := by
+  by_cases hk : st.known = true
+  · have : norm st = st := by unfold norm; simp [hk]
+    rw [this]; exact same_refl _
+  · simp only [Bool.not_eq_true] at hk
+    obtain ⟨f1, f2, f3, f4, f5, f6, f7⟩ := norm_fields st hk
+    by_cases o0 : fOpcode img = 0
+    · by_cases t01 : fTos img = 0 ∨ fTos img = 1
+      · -- Discover of a discovery service: the pre-step overwrites both addresses
+        have hmt : mapperMatches st (fRealSrc img) = true := by unfold mapperMatches; simp [hk]
+        have hmt' : mapperMatches (norm st) (fRealSrc img) = true := by rw [matches_norm st _ hk]; exact hmt
+        have hpre : preStep (norm st) img = preStep st img := by unfold preStep; rw [setActive_norm st _ _ hk]
+        rw [parseFrameSt_discover c g w st img t01 o0, parseFrameSt_discover c g w (norm st) img t01 o0, if_pos hmt, if_pos hmt', hpre]
+        exact same_refl _
+      · have h0 : fTos img ≠ 0 := fun e => t01 (Or.inl e)
+        have h1 : fTos img ≠ 1 := fun e => t01 (Or.inr e)
+        rw [dispatch_other c g w st img h0 h1, dispatch_other c g w (norm st) img h0 h1]
+        exact ⟨rfl, rfl, rfl, (norm_idem st).symm⟩
+    · by_cases t0 : fTos img = 0
+      · rw [dispatch_tos0 c g w st img t0 o0, dispatch_tos0 c g w (norm st) img t0 o0]
+        by_cases o2 : fOpcode img = 2
+        · simp only [o2, if_true]; exact emit_norm c w st img hk
+        · simp only [o2, if_false]
+          by_cases o34 : fOpcode img = 3 ∨ fOpcode img = 4
+          · simp only [o34, if_true]; exact probe_norm c w st img hk
+          · simp only [o34, if_false]
+            by_cases o6 : fOpcode img = 6
+            · simp only [o6, if_true, query_norm c w st img hk]; exact same_refl _
+            · simp only [o6, if_false]
+              by_cases o11 : fOpcode img = 11
+              · simp only [o11, if_true]; exact qltlv_norm c g w st img hk
+              · simp only [o11, if_false]
+                by_cases o8 : fOpcode img = 8
+                · simp only [o8, if_true]
+                  refine ⟨rfl, ?_, rfl, ?_⟩
+                  · simp only [resetWorld, f1, f7]
+                  · apply norm_eq_of <;> simp [resetSt]
+                · simp only [o8, if_false]; exact ⟨rfl, rfl, rfl, (norm_idem st).symm⟩
+      · by_cases t1 : fTos img = 1
+        · rw [dispatch_tos1 c g w st img t1 o0, dispatch_tos1 c g w (norm st) img t1 o0]
+          by_cases o11 : fOpcode img = 11
+          · simp only [o11, if_true]; exact qltlv_norm c g w st img hk
+          · simp only [o11, if_false]
+            by_cases o8 : fOpcode img = 8
+            · simp only [o8, if_true]
+              refine ⟨rfl, rfl, rfl, ?_⟩
+              apply norm_eq_of <;> simp [f1, f2, f4, f5, f7]
+            · simp only [o8, if_false]; exact ⟨rfl, rfl, rfl, (norm_idem st).symm⟩
+        · rw [dispatch_other c g w st img t0 t1, dispatch_other c g w (norm st) img t0 t1]
+          exact ⟨rfl, rfl, rfl, (norm_idem st).symm⟩
+
+/-- after a topology Reset the record is, up to dead fields, the record of a freshly started responder -/
+theorem reset_is_fresh (st : St) : norm (resetSt st) = norm {} := by
+  unfold norm resetSt; simp
+
+/-- bisimulation: states equal up to dead fields react identically and stay equal up to dead fields -/
+theorem bisim (c : Cfg) (g : Glob) (w : World) (s1 s2 : St) (img : List Nat) (h : norm s1 = norm s2) :
+    SameReaction (parseFrameSt c g w s1 img) (parseFrameSt c g w s2 img) := by
+  have h1 := dead_fields c g w s1 img
+  have h2 := dead_fields c g w s2 img
+  rw [h] at h1
+  exact ⟨h1.1.trans h2.1.symm, h1.2.1.trans h2.2.1.symm, h1.2.2.1.trans h2.2.2.1.symm, h1.2.2.2.trans h2.2.2.2.symm⟩
+
+/-- histories: the reactions (port calls per frame) to a continuation -/
+def reactions (c : Cfg) (g : Glob) : World → St → List (List Nat) → List (List Fx)
+  | _, _, [] => []
+  | w, st, img :: rest =>
+    let o := parseFrameSt c g w st img
+    o.fx :: reactions c g o.w o.st rest
+
+theorem reactions_bisim (c : Cfg) (g : Glob) (cont : List (List Nat)) (w : World) (s1 s2 : St) (h : norm s1 = norm s2) :
+    reactions c g w s1 cont = reactions c g w s2 cont := by
+  induction cont generalizing w s1 s2 with
+  | nil => rfl
+  | cons img rest ih =>
+    have hb := bisim c g w s1 s2 img h
+    simp only [reactions]
+    rw [hb.1, hb.2.1]
+    congr 1
+    exact ih _ _ _ hb.2.2.2
+
+/-- C09: after ANY state (reached by any history) and a topology Reset, the reaction to ANY continuation is,
+    frame for frame and byte for byte, that of a freshly started responder with the same configuration (same
+    allocator behaviour on both sides) -/
+theorem reset_then_like_fresh (c : Cfg) (g : Glob) (w : World) (st : St) (cont : List (List Nat)) :
+    reactions c g w (resetSt st) cont = reactions c g w {} cont :=
+  reactions_bisim c g cont w _ _ (reset_is_fresh st)
+
+/-- non-vacuity: a state full of history — known mapper, observations, generations, cached icon -/
+def dirty : St :=
+  { sees := [{ typ := 1, realSrc := [1,1,1,1,1,1], src := [2,2,2,2,2,2], dst := [3,3,3,3,3,3] }], count := 1,
+    mapperReal := [9,9,9,9,9,9], mapperApparent := [8,8,8,8,8,8], known := true, seq := 77, genTopo := 5, genQuick := 6,
+    icon := some [1, 2, 3] }
+example : norm (resetSt dirty) = norm {} := by decide
 
 end LLTD.C09
